@@ -1136,7 +1136,7 @@ def run(ctx, args):
             Job("enum-depth1-all", 1, sums=(1,), repls=ALL_REPLS, workers=1),
             # f, c, M(V,V), Lf_V and the number 0: 0 - action(M, f), sum([c, Lf_V]) = (0 + c) + Lf_V, derivative(0 - c, c), ...
             Job("enum-depth2-numbers", 2, leaves={1, 4, 7, 19, 29}, weights=(1, 4), zeros=(2,), dercoefs=(1, 4), workers=1),
-            Job("sim-depth4", 4, simulate=18, seed=seed, sums=(3,), repls=ALL_REPLS),
+            Job("sim-depth4", 4, leaves=BF_LEAVES, simulate=18, seed=seed, sums=(3,), repls=ALL_REPLS),
             # weighted sums of three components: f, f2, c, c2, Lf_V and every Action of two of them; then one of
             # derivative / action / replace (all orders of the components: every vanishing pattern)
             Job("sums-depth5-1forms", 5, leaves={1, 2, 4, 5, 19}, sums=(1,), dercoefs=(1, 4), invs=SUM_INVS, workers=2, **SUM_KW),
@@ -1147,7 +1147,9 @@ def run(ctx, args):
         jobs = [
             Job("enum-depth3-10leaves", 3, leaves={1, 4, 7, 10, 13, 17, 19, 22, 24, 26}, weights=(1, 4), zeros=(2,), dercoefs=(1,)),
             Job("laws-depth1-all", 1, dump=False, invs=LAW_INVS),
-            Job("enum-depth2-all", 2),
+            Job("enum-depth2-all", 2, leaves=BF_LEAVES | {29, 31}),
+            # f, c, M(V,V) and the number 0 (scale by 2, derivative w.r.t. c)
+            Job("enum-depth3-numbers", 3, leaves={1, 4, 7, 29}, weights=(4,), zeros=(), dercoefs=(4,)),
             Job("enum-depth3-6leaves", 3, leaves={1, 4, 10, 13, 19, 24}, weights=(1, 4), zeros=(4,), dercoefs=(1, 4)),
             Job("sim-depth4", 4, simulate=300, seed=seed, sums=ALL_SUMS, repls=ALL_REPLS),
             Job("sim-depth5", 5, simulate=250, seed=seed + 1, sums=ALL_SUMS, repls=ALL_REPLS),
@@ -1155,7 +1157,7 @@ def run(ctx, args):
             Job("sums-depth5-1forms", 5, leaves={1, 2, 4, 5, 17, 19}, sums=(1, 2), dercoefs=(1, 4), invs=SUM_INVS, **SUM_KW),
             Job("sums-depth4-2forms", 4, leaves={1, 2, 7, 10, 13, 16}, sums=(1,), dercoefs=(1,), invs=SUM_INVS, **dict(SUM_KW, compops=("act", "adj"))),
             Job("sums-depth4-W", 4, leaves={1, 3, 4, 6, 8, 9, 15, 18, 20, 23}, sums=(4,), dercoefs=(1, 3), invs=SUM_INVS, **dict(SUM_KW, compops=("act", "adj"))),
-            Job("sums-sim-depth5", 5, simulate=40, seed=seed + 2, sums=ALL_SUMS, dercoefs=(1, 3, 4), invs=SUM_INVS,
+            Job("sums-sim-depth5", 5, leaves=BF_LEAVES, simulate=40, seed=seed + 2, sums=ALL_SUMS, dercoefs=(1, 3, 4), invs=SUM_INVS,
                 **dict(SUM_KW, weights=(1, 2, 3, 4, 5), zeros=(1, 2, 3, 4, 5, 6), compops=("act", "adj", "der", "neg", "scale", "zero", "add", "sub"), postops=("act", "adj", "der", "repl", "neg", "scale", "add", "sub"), postmax=2)),
         ]
     done = run_jobs(ctx, jobs, parallel=3)
